@@ -13,9 +13,92 @@ MT = {
     "fp": CheckFn("fp-maxtimes", "Model.CrossSemiring", "fp_check_maxtimes", C02.CF["real"].ty),
 }
 TOL = CheckFn("c11-tol", "Model.Tolerance", "tol_check", Tup(QQ, QQ, QQ, QQ, QQ))
-CHECKFNS = C01.CHECKFNS + C02.CHECKFNS + list(MT.values()) + C03.CHECKFNS + [TOL]
+VTOL = CheckFn("c11-vtol", "Model.Tolerance", "vtol_check", Tup(List(List(QQ)), List(QQ), List(QQ), QQ, QQ, List(QQ)))
+CHECKFNS = C01.CHECKFNS + C02.CHECKFNS + list(MT.values()) + C03.CHECKFNS + [TOL, VTOL]
 from harness.props import _c11_mag
 CHECKFNS = CHECKFNS + [_c11_mag.MAG]
+
+def solve_fixed_point(A, c):
+    """mu with mu = A mu + c, exact (Fractions, Gaussian elimination on I - A); Coq re-verifies mu = A mu + c"""
+    n = len(c)
+    M = [[(Fraction(1) if i == j else Fraction(0)) - A[i][j] for j in range(n)] + [c[i]] for i in range(n)]
+    for i in range(n):
+        piv = next(r for r in range(i, n) if M[r][i] != 0)
+        M[i], M[piv] = M[piv], M[i]
+        M[i] = [v / M[i][i] for v in M[i]]
+        for r in range(n):
+            if r != i and M[r][i] != 0:
+                M[r] = [vr - M[r][i] * vi for vr, vi in zip(M[r], M[i])]
+    return [M[i][n] for i in range(n)]
+
+def vtol_cases(rng, n, violations):
+    """The meaning of `tol` for VECTOR systems x = A x + c (C11_vector_stop_bound): one strongly connected component of
+    two or three nonterminals with nullary rules X_i -> c_i | a_ij X_j (the cycle i -> i+1 always present, further
+    entries at random; a rule X_i -> c_i is omitted when c_i = 0, so that nonterminal's block is ABSENT from the first
+    iterate), or ONE nonterminal with an external node over a domain of size 2 or 3 (a BLOCK: x_v = sum_u a[v,u] x_u + c_v).
+    Max row sum 15/16 .. 63/64 (dyadic entries: exact in float64), entries of c from 0 to 2^40.  Every component of the
+    result of sum_products(method='fixed-point', tol) is judged in Coq by vtol_check: within
+    [mu_i - tol/(1-||A||) - delta, mu_i + delta], mu the exact fixed point (re-verified in Coq), delta = max(mu)/10^12."""
+    import fggs, torch
+    vals, metas = [], []
+    for i in range(n):
+        dim = rng.choice([2, 3])
+        block = (i % 3 == 2)
+        den = rng.choice([16, 32, 64])
+        A = [[Fraction(0)] * dim for _ in range(dim)]
+        for r in range(dim):
+            js = {(r + 1) % dim} | {j for j in range(dim) if rng.random() < 0.5}
+            js = sorted(js)
+            total = den - rng.choice([1, 1, 2]) if r == 0 else rng.randint(den // 2, den - 1)   # row 0 carries the norm
+            cuts = sorted(rng.sample(range(1, total), len(js) - 1)) if len(js) > 1 else []
+            parts = [b - a for a, b in zip([0] + cuts, cuts + [total])]
+            for j, pnum in zip(js, parts): A[r][j] = Fraction(pnum, den)
+        c = [Fraction(rng.choice([0, 1, 3, 5])) * Fraction(2) ** rng.choice([0, 10, 20, 30, 40]) for _ in range(dim)]
+        if all(v == 0 for v in c): c[rng.randrange(dim)] = Fraction(2) ** 20
+        tol = Fraction(1, 10 ** rng.choice([4, 6, 8]))
+        kmax = 20000
+        g = fggs.FGG("S" if block else "X0")
+        if block:
+            # S -> B(v) (start symbol of arity 0, its own non-looping component, solved after B's); B(v) -> c(v) | a(v,u) B(u)
+            g.new_finite_domain("D", list(range(dim)))
+            r0 = fggs.Graph(); v = r0.new_node("D"); r0.new_edge("B", [v], is_nonterminal=True); g.new_rule("S", r0)
+            r1 = fggs.Graph(); v = r1.new_node("D"); r1.ext = [v]; r1.new_edge("c", [v], is_terminal=True); g.new_rule("B", r1)
+            r2 = fggs.Graph(); v = r2.new_node("D"); u = r2.new_node("D"); r2.ext = [v]
+            r2.new_edge("a", [v, u], is_terminal=True); r2.new_edge("B", [u], is_nonterminal=True); g.new_rule("B", r2)
+            g.new_finite_factor("c", torch.tensor([float(x) for x in c], dtype=torch.float64))
+            g.new_finite_factor("a", torch.tensor([[float(x) for x in row] for row in A], dtype=torch.float64))
+        else:
+            for r in range(dim):
+                if c[r] != 0:
+                    r1 = fggs.Graph(); r1.new_edge("c%d" % r, [], is_terminal=True); g.new_rule("X%d" % r, r1)
+                for j in range(dim):
+                    if A[r][j] != 0:
+                        r2 = fggs.Graph(); r2.new_edge("a%d_%d" % (r, j), [], is_terminal=True); r2.new_edge("X%d" % j, [], is_nonterminal=True)
+                        g.new_rule("X%d" % r, r2)
+            for r in range(dim):
+                if c[r] != 0: g.new_finite_factor("c%d" % r, torch.tensor(float(c[r]), dtype=torch.float64))
+                for j in range(dim):
+                    if A[r][j] != 0: g.new_finite_factor("a%d_%d" % (r, j), torch.tensor(float(A[r][j]), dtype=torch.float64))
+        case = dict(shape=("one nonterminal, block of %d" % dim) if block else ("%d scalar nonterminals" % dim),
+                    A=[[str(x) for x in row] for row in A], c=[str(x) for x in c], tol=str(tol), kmax=kmax)
+        try:
+            with warnings.catch_warnings(record=True) as wl:
+                warnings.simplefilter("always")
+                zs = fggs.sum_products(g, method="fixed-point", semiring=fggs.RealSemiring(dtype=torch.float64), tol=float(tol), kmax=kmax)
+            byname = {k.name: zs[k] for k in zs if k.is_nonterminal}
+            if block:
+                obs = [Fraction(float(x)) for x in byname["B"].to_dense().reshape(-1).tolist()]
+            else:
+                obs = [Fraction(float(byname["X%d" % r].to_dense())) for r in range(dim)]
+            warned = any("maximum iteration" in str(w.message) for w in wl)
+        except Exception as e:
+            violations.append(Violation("sum_products raised %r" % (e,), case=case, corr="corr:vtol")); continue
+        if warned:
+            violations.append(Violation("fixed-point warned (kmax=%d) on a contraction with norm < 1" % kmax, case=case, corr="corr:vtol (C11_vector_fixed_point_run)")); continue
+        mu = solve_fixed_point(A, c)
+        vals.append((A, c, mu, tol, max(mu) / 10 ** 12, obs))
+        metas.append(dict(case, observed=[float(x) for x in obs], least_fixed_point=[float(x) for x in mu]))
+    return vals, metas
 
 def tol_cases(rng, n, violations):
     """The meaning of `tol` (fixed-point): an ABSOLUTE stopping distance, whatever the magnitude of the values.
@@ -67,10 +150,12 @@ def tol_cases(rng, n, violations):
 
 ASSUMPTIONS = [
     "every option combination (method x j_precompute x dtype x interpreter -OO) is judged in Coq against the same exact model (C01/C02 check functions), so agreement between combinations follows from agreement with the model; bitwise equality of the -OO run with the normal run is additionally measured and reported",
-    "Log = log Real: both judged against the ereal model; Bool = support of Real: theorem supp_Zk; Viterbi <= Log: the Viterbi result with real-valued log-weights is judged against the max-times model and theorem maxtimes_le_plustimes gives the inequality",
+    "Log = log Real: both judged against the ereal model; Bool = support of Real: theorem supp_Zk; Viterbi <= Log: the Viterbi result with real-valued log-weights is judged against the max-times model and theorem maxtimes_le_plustimes gives the inequality; for recursive grammars the relations are proved at the least fixed point / certified enclosures (C11_bool_lfp_is_support_of_real_lfp: the Boolean least fixed point is the support of the supremum of the Real Kleene chain; C11_viterbi_below_real_enclosure / _prefix: every max-times iterate is below every certified Real upper bound and every Real pre-fixed point)",
     "dtype float32 and the interpreter flags are runtime behaviour: decided by differential execution only",
     "gradients across option combinations are judged by C03's gradient check when available; j_precompute=True gradients are compared with j_precompute=False here (see known findings)",
     "magnitude stream (harness/props/_c11_mag.py, Model/Magnitude.v): the enclosure of the least solution is computed in Python with integer square roots but only used after Coq has checked the certificate (cert_ok); the conversion of the Log semiring's stopping distance to an absolute one ((e^tol - 1) * hi), the rounding allowances eps (1e-11 float64, 2e-5 float32, x20 for Log, divided by 1-L) and the first-order allowance for gradients taken at the approximate solution are computed in Python and trusted",
+    "meaning of tol (fixed-point): the theorems are about exact rational Kleene iteration x_{k+1} = A x_k + c with the code's stopping test (Model/Tolerance.v: mt_close = MultiTensor.allclose with rtol=0, absent block = zero, equal infinities close; NaN not modelled); the float64 run is judged against the proved band [mu - tol/(1-||A||), mu] widened by delta = max(mu)/10^12 for rounding; the fixed point mu is computed in Python (exact Fractions) and re-verified inside vtol_check (mu == A mu + c; unique by C11_vector_fixed_point_unique)",
+    "the vector stream's grammars have ONE strongly connected component of nonterminals (plus, for the block shape, a non-looping start symbol above it), so fixed_point iterates exactly x |-> A x + c from the empty MultiTensor; the correspondence grammar -> (A, c) for these shapes is by construction of the generator, not a theorem",
 ]
 
 class SRX(SR):
@@ -212,6 +297,16 @@ def run(tier, seed):
                                     expected=dict(least_solution=m["least_solution"]), call=call, corr="C11 / corr:magnitude",
                                     oracle="mag_check (C11_certificate_encloses_least_solution, C11_newton_stop_bound, C11_fixed_point_stop_bound_quadratic, C11_value_below_base_weight_rejected)",
                                     failing_input_found=c in (1, 2, 3, 4)))
+    # the meaning of tol, vector / block systems
+    vvals, vmetas = vtol_cases(rng, 6 if tier == "quick" else 120, violations)
+    vcodes, a = run_model(VTOL, vvals, seed=seed, coq_sample=3, tag="c11vtol"); nk += a; total += len(vcodes)
+    vshapes = {}
+    for m, c in zip(vmetas, vcodes):
+        vshapes[m["shape"]] = vshapes.get(m["shape"], 0) + 1
+        if c == 0: continue
+        violations.append(Violation("fixed-point result of a vector system is not within tol/(1-||A||) of the least fixed point (verdict %d of vtol_check)" % c,
+                                    case=m, observed=m["observed"], expected=m["least_fixed_point"], oracle="vtol_check (C11_vector_stop_bound, C11_vtol_check_rejects)",
+                                    corr="C11 / corr:vtol", call="sum_products(method='fixed-point', tol=%s)" % m["tol"], failing_input_found=(c == 1)))
     # gradients across method x j_precompute x semiring (C03's dual-number check)
     gvals = []; gmeta = []; f9_skipped = 0
     for gi in range(max(6, n // 2)):
@@ -266,8 +361,12 @@ def run(tier, seed):
                kernel_reevaluated=nk,
                samples=[dict(info=repr(info[0][1:4]), result=res_n[0])],
                magnitude_cases=len(mvals), magnitude_histogram=mag_hist,
+               tol_scalar_cases=len(tvals), tol_vector_cases=len(vvals), tol_vector_shapes=vshapes,
                gradient_cases=len(gvals), jprecompute_gradient_exceptions=f9_skipped,
-               open_items=["gradients are judged on C03's j_precompute-friendly grammar family (rules with one or two edges); on other shapes j_precompute=True is covered by the known findings F9"])
+               open_items=["gradients are judged on C03's j_precompute-friendly grammar family (rules with one or two edges); on other shapes j_precompute=True is covered by the known findings F9",
+                           "stop bound: proved for linear systems x = A x + c over Q^n (C11_vector_stop_bound, C11_vector_fixed_point_run, C11_block_fixed_point_run) and for polynomial systems with non-negative coefficients over Q^n under a row-sum bound of the Jacobian at the least fixed point (C11_poly_stop_bound); NOT connected by a theorem to the grammar model (step ereal_ops G w as such a system), nor to several SCCs solved in sequence (the error of an earlier component enters the later one's c)",
+                           "pass_bound is linear in C/tol (Bernoulli); the sharp count is the least K with a^K C <= tol (C11_vector_test_fires is stated with a^K)",
+                           "Log-semiring reading of tol (differences of log-values) is judged differentially only"])
     return cov, violations
 
 def replay(path):
@@ -276,7 +375,7 @@ def replay(path):
 
 MANIFEST = dict(
     level="proof",
-    text="Coq: a semiring homomorphism commutes with every Kleene iterate of the sum-product (hence Boolean result = support of the Real result), max-times is below plus-times on [0,inf] (Viterbi <= Log in the exp reading), Log and Real share one model; one-step and linear downgrades are sound by C01/C02. Differential execution: every combination of method x j_precompute x dtype x {python, python -OO} on generated FGGs is judged in Coq against the same exact model; bitwise agreement of -OO with the normal interpreter and a static scan of assert statements are recorded. Magnitudes: for scalar polynomial components (solutions 1e-8..1e8, default and explicit tol, scale factors up- and downstream) values and gradients of every method x dtype x {Real, Log} are judged in Coq against a certified enclosure of the least solution; proved: the certificate encloses it, newton stops within tol*L/(1-L), fixed-point within tol/(1-L), the base weight is within relative L of the solution, a value below the base weight is rejected.",
+    text="Coq: a semiring homomorphism commutes with every Kleene iterate of the sum-product (hence Boolean result = support of the Real result), max-times is below plus-times on [0,inf] (Viterbi <= Log in the exp reading), both carried to least fixed points / certified enclosures of recursive grammars, Log and Real share one model; one-step and linear downgrades are sound by C01/C02. Meaning of tol (fixed-point), proved for every n: for x = A x + c over Q^n (entries >= 0, max row sum a < 1) Kleene iteration from 0 with the code's stopping test (model of MultiTensor.allclose: absolute, symmetric, absent block = zero, whichever blocks are materialised) stops within K passes whenever a^K max(c) <= tol (explicit K = ceil((C-tol)/(tol(1-a)))) without warning and returns x_k with x_k <= mu <= x_k + tol/(1-a) componentwise (and x_{k+1} within a tol/(1-a)), mu the unique = least fixed point, whatever the magnitude of c; the same band for polynomial systems with non-negative coefficients whose Jacobian row sums at the least fixed point are <= a; check functions tol_check / vtol_check proved sound and rejecting, and run on scalar, two-/three-nonterminal and block-valued linear grammars with values up to 2^40. Differential execution: every combination of method x j_precompute x dtype x {python, python -OO} on generated FGGs is judged in Coq against the same exact model; bitwise agreement of -OO with the normal interpreter and a static scan of assert statements are recorded. Magnitudes: for scalar polynomial components (solutions 1e-8..1e8, default and explicit tol, scale factors up- and downstream) values and gradients of every method x dtype x {Real, Log} are judged in Coq against a certified enclosure of the least solution; proved: the certificate encloses it, newton stops within tol*L/(1-L), fixed-point within tol/(1-L), the base weight is within relative L of the solution, a value below the base weight is rejected.",
     note="Partial: dtype and interpreter flags are runtime behaviour a Gallina model cannot exhibit; decided by differential execution. Trusted: Coq kernel, extraction cross-checked by vm_compute, harness and worker.",
     technique="Coq homomorphism/lax-homomorphism theorems + model-judged differential execution over the option matrix",
     design_ref="DESIGN.md section 6, C11")
